@@ -44,9 +44,16 @@ pub fn actor_main(args: &[String]) -> i32 {
         let n = COUNT.fetch_add(1, Ordering::SeqCst);
         TRACE.lock().unwrap().push(label.to_string());
         if Some(n) == fault_at {
-            let _ = std::fs::write(&fired2, label);
+            // how many files exist under the dependency's checkout area at the moment of the fault
+            let home = std::env::var("HOME").unwrap_or_default();
+            let _ = std::fs::write(&fired2, format!("{label}\n{}", files_in_checkout_area(Path::new(&home))));
             if kind == "abort" {
                 std::process::abort();
+            }
+            if label == "fetch:checkout-progress" {
+                // libgit2 ignores the callback's result: make the kernel fail the next larger write of the checkout instead
+                // (file size limit of 512 bytes for this process, SIGXFSZ ignored so that write() returns EFBIG)
+                set_file_size_limit(Some(512));
             }
             return Err(std::io::Error::other(format!("injected I/O failure at {label}")));
         }
@@ -112,9 +119,24 @@ pub fn actor_main(args: &[String]) -> i32 {
             }
         }
     }
+    set_file_size_limit(None);
     res.insert("trace".into(), json!(TRACE.lock().unwrap().clone()));
     let _ = std::fs::write(&out, serde_json::to_string_pretty(&Value::Object(res)).unwrap());
     code
+}
+
+fn set_file_size_limit(limit: Option<u64>) {
+    unsafe {
+        let mut r = libc::rlimit { rlim_cur: 0, rlim_max: 0 };
+        if libc::getrlimit(libc::RLIMIT_FSIZE, &mut r) == 0 {
+            r.rlim_cur = match limit {
+                Some(l) => l as libc::rlim_t,
+                None => r.rlim_max,
+            };
+            libc::signal(libc::SIGXFSZ, libc::SIG_IGN);
+            libc::setrlimit(libc::RLIMIT_FSIZE, &r);
+        }
+    }
 }
 
 // ------------------------------------------------------------------------------------------------
@@ -184,7 +206,7 @@ fn commit_files(s: &Scenario, c: u8) -> BTreeMap<String, Vec<u8>> {
             1 => "assets/".to_string(),
             2 => "assets/deep/er/".to_string(),
             3 => format!("{root}src/extra/"),
-            _ => "docs/a/b/c/".to_string(),
+            _ => "zz_late/a/b/".to_string(), // sorts after the package files: written last by the checkout
         };
         let size = match (s.seed as usize + i as usize) % 4 {
             0 => 7,
@@ -440,10 +462,12 @@ fn run_pair(s: &Scenario, b: &Built, lock_text: Option<&str>, pair: &Pair, work:
     if f.watchdog {
         return PairRes::Watchdog;
     }
-    let Some(label) = f.fired.clone() else {
+    let Some(fired) = f.fired.clone() else {
         return PairRes::NotReached;
     };
-    let written = files_in_checkout_area(&home);
+    let label = fired.lines().next().unwrap_or("").to_string();
+    // measured by the faulty process itself at the moment the fault fired
+    let written: usize = fired.lines().nth(1).and_then(|n| n.parse().ok()).unwrap_or(0);
     let mut rec = run_fetch(&pkg, &home, "none", "recover");
     if rec.watchdog {
         return PairRes::Watchdog;
@@ -456,7 +480,7 @@ fn run_pair(s: &Scenario, b: &Built, lock_text: Option<&str>, pair: &Pair, work:
         if f2.watchdog {
             return PairRes::Watchdog;
         }
-        second_label = f2.fired.map(|l| format!(" then {k2}@{l}")).unwrap_or_default();
+        second_label = f2.fired.map(|l| format!(" then {k2}@{}", l.lines().next().unwrap_or(""))).unwrap_or_default();
         rec = run_fetch(&pkg, &home, "none", "recover2");
         if rec.watchdog {
             return PairRes::Watchdog;
@@ -468,7 +492,7 @@ fn run_pair(s: &Scenario, b: &Built, lock_text: Option<&str>, pair: &Pair, work:
         Ok(()) => PairRes::Ok { nontrivial: written > 0 && !completed, label: label.clone() },
         Err((kind, detail)) => PairRes::Violation {
             signature: format!("{kind}: {}@{label}{}", pair.kind, second_label),
-            summary: format!("{} at fault point #{} `{label}`{second_label} ({} files were under the checkout area afterwards): {detail}", if pair.kind == "abort" { "process abort" } else { "injected I/O error" }, pair.index, written),
+            summary: format!("{} at fault point #{} `{label}`{second_label} ({} files were under the checkout area at that moment): {detail}", if pair.kind == "abort" { "process abort" } else { "injected I/O error" }, pair.index, written),
         },
     };
     if std::env::var("VERIF_KEEP_SCRATCH").is_err() {
@@ -531,20 +555,20 @@ pub fn run(ctx: &Ctx) {
          directories, package at the root or in a sub directory, 1-3 commits where later commits change, drop and add files, a tag and a second branch) referenced by \
          a package through branch / tag / rev / default branch, with or without a Forc.lock; for every scenario the fault points are the H-GITFETCH labels in the \
          order a fault-free `BuildPlan::from_pkg_opts(offline=false)` passes them (pin: tmp clone init/fetch/clean-up; Pinned::fetch: lock, exists-check; fetch: tmp \
-         clone, set-head, remove-old, create-dir, checkout, one point per libgit2 checkout progress callback, index write, clean-up); every point is enumerated with \
-         fault kind process-abort and, where the point can return an error, injected io::Error, each in a fresh child process with a fresh HOME; thorough adds a \
+         clone, set-head, remove-partial, create-dir, checkout, one point per libgit2 checkout progress callback, index write, remove-old, rename, clean-up); every point is enumerated with \
+         fault kind process-abort and with an injected io::Error (inside libgit2's checkout: a write failure forced through the file-size limit), each in a fresh child process with a fresh HOME; thorough adds a \
          sample of second faults during the recovery. Oracle: a fresh process then plans (offline=false) and type-checks the package: it must succeed, pin the commit \
          the reference points at, and the checkout directory it resolved must contain exactly that commit's files (paths and contents; .forc_index aside). \
-         One evaluation = one (fault, recovery) pair whose fault point was reached; non-trivial = after the faulty run at least one file existed under the \
-         dependency's checkout area and the fetch had not completed; distinct by hash of (scenario, fault index, kind)",
+         One evaluation = one (fault, recovery) pair whose fault point was reached; non-trivial = at the moment the fault fired at least one file existed under the \
+         dependency's checkout area (final or .partial directory) and the fetch had not completed; distinct by hash of (scenario, fault index, kind)",
     );
     *rep.level.lock().unwrap() = "fault_enumeration".into();
     rep.assume("a crash is process death (abort) with the page cache intact; lost un-synced writes and reordered directory updates after power loss are not modelled");
-    rep.assume("crash points inside libgit2's checkout are the per-file progress callbacks; libgit2 cannot be made to fail from that callback, so the io::Error kind is injected only at the points between library calls");
+    rep.assume("crash points inside libgit2's checkout are the per-file progress callbacks; an I/O failure inside the checkout is produced by lowering the process's file-size limit to 512 bytes at that callback, so the next larger file libgit2 writes fails with EFBIG (no effect when only small files remain)");
     rep.assume("the upstream repository is a local file:// repository and does not change between the faulty run and the recovery");
     rep.assume("the recovery build runs online (offline=false), as the property allows it to fetch again; dependency packages use implicit-std = false so that type-checking needs no std");
     let scratch = Scratch::new(&format!("c30-{}", ctx.seed));
-    let n_random = ctx.cases(5, 60) as usize;
+    let n_random = ctx.cases(1, 60) as usize;
     let mut scenarios = pinned_scenarios();
     for i in 0..n_random {
         scenarios.push(gen_one(ctx.seed.wrapping_mul(0x9E37_79B9_7F4A_7C15).wrapping_add(3000 + i as u64), &scenario_strategy()));
@@ -590,9 +614,7 @@ pub fn run(ctx: &Ctx) {
         for (i, l) in p.trace.iter().enumerate() {
             *label_hist.entry(l.clone()).or_insert(0) += 1;
             work.push((pi, Pair { index: i, label: l.clone(), kind: "abort", second: None }));
-            if l != "fetch:checkout-progress" {
-                work.push((pi, Pair { index: i, label: l.clone(), kind: "err", second: None }));
-            }
+            work.push((pi, Pair { index: i, label: l.clone(), kind: "err", second: None }));
         }
     }
     rep.set_extra("fault_points_per_label", json!(label_hist));
